@@ -109,8 +109,8 @@ def main():
         # 3. long primal phase I: an equality LP with more rows than the eta file holds updates (100), so the basis is
         #    refactored while phase I is still running (work vectors of the phase are re-created on that path)
         for bi in range(3 if ck.thorough() else 1):
-            m_, n_ = 130 + 20 * bi, 260 + 40 * bi
-            x0 = [ck.rng.randint(0, 2) for _ in range(n_)]
+            m_, n_ = 170 + 20 * bi, 340 + 40 * bi
+            x0 = [ck.rng.randint(1, 3) for _ in range(n_)]
             rows_ = []
             for i in range(m_):
                 js = sorted(set([i, (i * 7 + 3) % n_, m_ + i % (n_ - m_)] + [ck.rng.randrange(n_) for _ in range(2)]))
